@@ -155,19 +155,28 @@ structure Generated where
   manip : Config.Manipulations
 
 /-- `GenerateArtifacts(backend, alias)` up to the signature value (an oracle output) -/
-def generateArtifacts (s : State) (a : String) (o : Gen.Oracle) : R Generated := do
-  let e ← match s.find a with | some e => pure e | none => throw "db: alias does not exist"
-  let c := e.content
-  let ctx ← Gen.buildCertBody c e.art.key (e.art.request.map (·.1)) o
-  let iss ← if !c.issuer.isEmpty then
-      (match s.find c.issuer with
-       | none => throw "PANIC: issuer artifact is nil"
-       | some i =>
-         match i.art.cert with
-         | none => throw "db: issuer has no certificate to sign with"
-         | some ic => pure (⟨i.art.key, some ic.spkiBits, ic.subject⟩ : Gen.IssuerContext))
-    else pure (Gen.asIssuer ctx)
-  let (tbs, outer, signer) ← Gen.signBody ctx iss c.signatureAlgorithm
-  pure ⟨tbs, outer, signer, ctx.key, c.manipulations⟩
+def issuerContextFor (s : State) (c : V1.CertificateContent) (ctx : Gen.Context) : R Gen.IssuerContext :=
+  if !c.issuer.isEmpty then
+    match s.find c.issuer with
+    | none => .error "PANIC: issuer artifact is nil"
+    | some i =>
+      match i.art.cert with
+      | none => .error "db: issuer has no certificate to sign with"
+      | some ic => .ok ⟨i.art.key, some ic.spkiBits, ic.subject⟩
+  else .ok (Gen.asIssuer ctx)
+
+def generateArtifacts (s : State) (a : String) (o : Gen.Oracle) : R Generated :=
+  match s.find a with
+  | none => .error "db: alias does not exist"
+  | some e =>
+    match Gen.buildCertBody e.content e.art.key (e.art.request.map (·.1)) o with
+    | .error err => .error err
+    | .ok ctx =>
+      match issuerContextFor s e.content ctx with
+      | .error err => .error err
+      | .ok iss =>
+        match Gen.signBody ctx iss e.content.signatureAlgorithm with
+        | .error err => .error err
+        | .ok (tbs, outer, signer) => .ok ⟨tbs, outer, signer, ctx.key, e.content.manipulations⟩
 
 end Db
